@@ -65,4 +65,4 @@ if __name__ == '__main__':
                      'its stated invariant (allocation => inventory, '
                      'consumer row <=> allocations)',
                      'see DESIGN.md 3.4 for shims, 3.2 for arithmetic'],
-        quick_budget=420, thorough_budget=1700))
+        quick_budget=420, thorough_budget=2400))
